@@ -66,5 +66,54 @@ pub mod vlib_server {
             forall|i: int| 0 <= i < old(v)@.len() ==> #[trigger] f.requires((&old(v)@[i],)),
         ensures
             final(v)@.len() <= old(v)@.len(),
-            is_subsequence(final(v)@, old(v)@);
+            is_subsequence(final(v)@, old(v)@),
+            retain_post(old(v)@, final(v)@, f);
+
+    // the same documented behaviour, with the predicate: the survivors are exactly the elements on which `f` returned true
+    // (`f.ensures(.., true)`), every removed element is one on which it returned false. Stated through the closure's
+    // own contract, so it says something only for closures that carry an `ensures` (weaver T16).
+    pub open spec fn increasing(idx: Seq<int>, n: int) -> bool {
+        (forall|i: int| 0 <= i < idx.len() ==> 0 <= #[trigger] idx[i] < n)
+        && (forall|i: int, j: int| 0 <= i < j < idx.len() ==> idx[i] < idx[j])
+    }
+    pub open spec fn retain_post<T, F: FnMut(&T) -> bool>(pre: Seq<T>, post: Seq<T>, f: F) -> bool {
+        exists|idx: Seq<int>| increasing(idx, pre.len() as int) && post.len() == idx.len()
+            && (forall|k: int| 0 <= k < idx.len() ==> post[k] == pre[#[trigger] idx[k]])
+            && (forall|k: int| 0 <= k < idx.len() ==> f.ensures((&pre[#[trigger] idx[k]],), true))
+            && (forall|i: int| 0 <= i < pre.len() ==> (#[trigger] idx.contains(i) || f.ensures((&pre[i],), false)))
+    }
+    /// `x` occurs in `s` (opaque: the two retain lemmas below are broadcast, and an `exists` over indices in their
+    /// conclusions would feed their own triggers; reveal it where an index is needed)
+    #[verifier::opaque]
+    pub open spec fn seq_has<T>(s: Seq<T>, x: T) -> bool { exists|k: int| 0 <= k < s.len() && s[k] == x }
+    pub proof fn lemma_seq_has_intro<T>(s: Seq<T>, k: int)
+        requires 0 <= k < s.len()
+        ensures seq_has(s, s[k])
+    { reveal(seq_has); }
+    /// an element the predicate cannot reject survives
+    pub broadcast proof fn lemma_retain_keeps<T, F: FnMut(&T) -> bool>(pre: Seq<T>, post: Seq<T>, f: F, i: int)
+        requires #![trigger retain_post(pre, post, f), pre[i]] retain_post(pre, post, f) && 0 <= i < pre.len() && !f.ensures((&pre[i],), false)
+        ensures post.len() > 0, seq_has(post, pre[i])
+    {
+        let idx = choose|idx: Seq<int>| increasing(idx, pre.len() as int) && post.len() == idx.len()
+            && (forall|k: int| 0 <= k < idx.len() ==> post[k] == pre[#[trigger] idx[k]])
+            && (forall|k: int| 0 <= k < idx.len() ==> f.ensures((&pre[#[trigger] idx[k]],), true))
+            && (forall|i: int| 0 <= i < pre.len() ==> (#[trigger] idx.contains(i) || f.ensures((&pre[i],), false)));
+        assert(idx.contains(i));
+        let j = choose|j: int| 0 <= j < idx.len() && idx[j] == i;
+        assert(post[j] == pre[idx[j]]);
+        lemma_seq_has_intro(post, j);
+    }
+    /// every survivor was there before and satisfied the predicate
+    pub broadcast proof fn lemma_retain_sub<T, F: FnMut(&T) -> bool>(pre: Seq<T>, post: Seq<T>, f: F, j: int)
+        requires retain_post(pre, post, f) && 0 <= j < post.len()
+        ensures #![trigger retain_post(pre, post, f), post[j]] seq_has(pre, post[j]) && f.ensures((&post[j],), true)
+    {
+        let idx = choose|idx: Seq<int>| increasing(idx, pre.len() as int) && post.len() == idx.len()
+            && (forall|k: int| 0 <= k < idx.len() ==> post[k] == pre[#[trigger] idx[k]])
+            && (forall|k: int| 0 <= k < idx.len() ==> f.ensures((&pre[#[trigger] idx[k]],), true))
+            && (forall|i: int| 0 <= i < pre.len() ==> (#[trigger] idx.contains(i) || f.ensures((&pre[i],), false)));
+        assert(post[j] == pre[idx[j]]);
+        lemma_seq_has_intro(pre, idx[j]);
+    }
 }
